@@ -97,7 +97,8 @@ struct TreeC : Cont {
             case 0: r.failed = !qtreetbl_put(t, k, a.val.data(), a.val.size()); break;
             case 1: r.failed = !qtreetbl_putstr(t, k, a.val.c_str()); break;
             case 2: r.failed = !qtreetbl_putstrf(t, k, "%s-%ld", a.val.c_str(), a.num); break;
-            case 3: r.failed = !qtreetbl_putobj(t, k, kn, a.val.data(), a.val.size()); break;
+            case 3: if ((a.sub & 15) == 9) r.failed = !qtreetbl_putobj(t, k, kn, nullptr, 0);    // a key stored without a value (set-like use); lookups of it follow their own paths
+                    else r.failed = !qtreetbl_putobj(t, k, kn, a.val.data(), a.val.size()); break;
             case 4: r.failed = !qtreetbl_remove(t, k); break;
             case 5: r.failed = !qtreetbl_removeobj(t, k, kn); break;
             case 6: VOIDOP(qtreetbl_clear(t)); break;
